@@ -201,8 +201,10 @@ def run_bin(exe, script, trace, timeout=600, runner=None, cwd=None, env=None):
             f.write(('"res":{"k":"%s","msg":%s}}\n' % (kind, json.dumps(" | ".join(msg)[:300]))).encode())
         resume = (int(m.group(1)), int(m.group(2)) + 1)
         aborts += 1
-        if aborts > 2000:
-            raise ToolError(f"{exe}: too many aborts")
+        if aborts > 400:
+            # a tree that dies in hundreds of calls has been shown broken many times over: the rest of this binary's
+            # script is not executed (its cases simply contribute fewer events)
+            return aborts
 
 
 SIG_RE = re.compile(r'"sig":"([^"]*)"')
